@@ -94,3 +94,82 @@ var fsMutators = map[string]bool{
 	"os.Chown": true, "os.Symlink": true, "os.Link": true, "os.Chtimes": true, "os.MkdirTemp": true, "os.CreateTemp": true,
 	"io/ioutil.WriteFile": true, "io/ioutil.TempFile": true, "io/ioutil.TempDir": true,
 }
+
+// mulTerm is a*b. In a function whose contract says `opaque_mul`, a product of two non-literal
+// terms is the uninterpreted imul(a, b) - non-linear arithmetic in a path condition makes every
+// later obligation on that path slow or undecided - with the facts the contracts need: it is
+// commutative, non-negative for non-negative factors, and at most 100*a when 0 <= b <= 100 (the
+// one bound used: percentages). Program and specification use the same term, so a specification
+// that repeats the code's product is equal to it syntactically.
+func (c *FnCtx) mulTerm(a, b string) string {
+	if c.contract == nil || !c.contract.OpaqueMul || isIntLiteral(a) || isIntLiteral(b) {
+		return "(* " + a + " " + b + ")"
+	}
+	if !c.declared["imul"] {
+		c.declareFun("imul", []string{"Int", "Int"}, "Int")
+		c.addGlobalFact("(forall ((a Int) (b Int)) (! (= (imul a b) (imul b a)) :pattern ((imul a b))))")
+		c.addGlobalFact("(forall ((a Int) (b Int)) (! (=> (and (<= 0 a) (<= 0 b)) (<= 0 (imul a b))) :pattern ((imul a b))))")
+		c.addGlobalFact("(forall ((a Int) (b Int)) (! (=> (and (<= 0 a) (<= 0 b) (<= b 100)) (<= (imul a b) (* 100 a))) :pattern ((imul a b))))")
+	}
+	return "(imul " + a + " " + b + ")"
+}
+
+func isIntLiteral(s string) bool {
+	if s == "" {
+		return false
+	}
+	if s[0] == '(' {
+		// (- 5)
+		return len(s) > 4 && s[:3] == "(- " && isIntLiteral(s[3:len(s)-1])
+	}
+	for _, r := range s {
+		if r < '0' || r > '9' {
+			return false
+		}
+	}
+	return true
+}
+
+// capturedLocallyOnly: the cell of a local variable that escapes only into function literals which
+// are themselves only deferred or called in place (never stored, passed on, returned or started as
+// goroutines). No callee can reach such a cell, so a callee's `modifies *` does not change it.
+func capturedLocallyOnly(x *ssa.Alloc) bool {
+	refs := x.Referrers()
+	if refs == nil {
+		return false
+	}
+	for _, r := range *refs {
+		switch u := r.(type) {
+		case *ssa.Store:
+			if u.Addr != x {
+				return false // the address itself is stored somewhere
+			}
+		case *ssa.UnOp:
+			// load
+		case *ssa.DebugRef:
+		case *ssa.MakeClosure:
+			crefs := u.Referrers()
+			if crefs == nil {
+				return false
+			}
+			for _, cr := range *crefs {
+				switch cu := cr.(type) {
+				case *ssa.Defer:
+					if cu.Call.Value != u {
+						return false
+					}
+				case *ssa.Call:
+					if cu.Call.Value != u {
+						return false
+					}
+				case *ssa.DebugRef:
+				default:
+					return false
+				}
+			}
+		default:
+			return false
+		}
+	}
+	return true
+}
